@@ -2,6 +2,7 @@
 
 Mostly a metamorphic relation between two runs (not decidable statically). The clauses that are visible in the code:
 
+R19.6  no local of an items-loop over document entries carries a value from one entry to the next (assigned before read in every iteration)
 R19.1  document mapping keys are normalised before type-sensitive use: a key obtained from `.items()` of a document
        mapping must pass `str()` before it reaches an `isinstance(k, str)`-guarded raise/skip (YAML scalar typing)
 R19.2  sibling call sites agree: path-level and operation-level parameters are parsed with the same naming context
@@ -26,9 +27,15 @@ def _items_loops(fn: Function) -> List[Tuple[ast.For, str, str]]:
     """(loop, key variable, mapping text) for `for k, v in <m>.items()` loops."""
     out = []
     for n in own_nodes(fn.node):
-        if isinstance(n, ast.For) and isinstance(n.iter, ast.Call) and isinstance(n.iter.func, ast.Attribute) and n.iter.func.attr == "items" \
+        if not isinstance(n, ast.For):
+            continue
+        it = n.iter
+        # `sorted(m.items())`, `list(m.items())`, `reversed(...)` still hand out the mapping's own keys
+        while isinstance(it, ast.Call) and isinstance(it.func, ast.Name) and it.func.id in ("sorted", "list", "tuple", "reversed") and it.args:
+            it = it.args[0]
+        if isinstance(it, ast.Call) and isinstance(it.func, ast.Attribute) and it.func.attr == "items" \
                 and isinstance(n.target, ast.Tuple) and len(n.target.elts) == 2 and isinstance(n.target.elts[0], ast.Name):
-            out.append((n, n.target.elts[0].id, norm(n.iter.func.value)))
+            out.append((n, n.target.elts[0].id, norm(it.func.value)))
     return out
 
 
@@ -93,9 +100,37 @@ def run(repo: Repo, rep: Report, tier: str) -> None:
                         rep.violation("R19.1", sub, f"{fn.fq}|key-type-test|loop{li + 1}",
                                       f"entries whose key is not a Python str are {'skipped' if any(isinstance(s, ast.Continue) for s in n.body) else 'rejected'} "
                                       f"(`{norm(n.test)[:60]}`): a YAML key such as `123:` or `yes:` drops the entry that the JSON rendering \"123\" keeps", fn.loc(n))
+    # (c) raw keys compared with each other: sorted()/min()/max() over the items / keys of a document mapping.  YAML gives `200:` as an
+    #     int and `default:` as a str; ordering them raises TypeError, the JSON rendering (all str) loads fine.
+    n_ord = 0
+    for mn in sorted(loader_mods):
+        if mn not in live:
+            continue
+        mod = repo.modules[mn]
+        for fn in mod.functions.values():
+            for c in calls_in(fn.node):
+                if not (isinstance(c.func, ast.Name) and c.func.id in ("sorted", "min", "max") and c.args):
+                    continue
+                a0 = c.args[0]
+                inner = a0
+                while isinstance(inner, ast.Call) and isinstance(inner.func, ast.Name) and inner.func.id in ("cast", "list", "tuple", "dict") and inner.args:
+                    inner = inner.args[-1]
+                if not (isinstance(inner, ast.Call) and isinstance(inner.func, ast.Attribute) and inner.func.attr in ("items", "keys") and not inner.args):
+                    continue
+                n_ord += 1
+                key = next((k.value for k in c.keywords if k.arg == "key"), None)
+                sub = f"{mod.relpath}:{fn.qualname} `{norm(c)[:60]}`"
+                if key is not None and "str(" in norm(key):
+                    rep.ok("R19.1", sub, "keys are compared through str()", fn.loc(c))
+                else:
+                    rep.violation("R19.1", sub, f"{fn.fq}|raw-keys-ordered|{c.func.id}",
+                                  f"`{norm(c)[:60]}` orders the raw keys of a document mapping: a YAML rendering with unquoted numeric status codes next to `default` / `4XX` "
+                                  "yields int and str keys, the comparison raises TypeError and generation aborts where the JSON rendering succeeds", fn.loc(c))
+    rep.count("R19.1:raw_key_orderings", n_ord)
     rep.count("R19.1:key_typing_sites", n_sites)
     rep.require(n_sites >= 2, f"R19.1: only {n_sites} key-typing sites found (floor 2)")
 
+    rule_no_state_between_entries(repo, rep, "R19.6")
     # ---------------------------------------------------------------- R19.2 sibling call sites of parse_parameter
     po = repo.func("core.loader.operations.parser:parse_operations")
     pcs = [c for c in calls_in(po.node) if dotted(c.func) == "parse_parameter"]
@@ -196,3 +231,75 @@ def _anc(n: ast.AST):
     while p is not None:
         yield p
         p = parent(p)
+
+
+# ------------------------------------------------------------------------------------------------ R19.6 no state leaks from one entry to the next
+def _loop_carried(fn: Function, loop: ast.For) -> List[Tuple[str, int]]:
+    """(name, line) of reads inside `loop` of a local that the loop body assigns, reachable from the loop header without passing one of
+    those assignments in the same iteration: the value then comes from an earlier entry (or from before the loop)."""
+    from sa.cfg import CFG
+
+    cfg = CFG(fn.node)
+    hdr = [n.id for n in cfg.nodes if n.kind == "iter" and n.stmt is loop and not n.copy]
+    if not hdr:
+        return []
+    h = hdr[0]
+    inside = {id(x) for st in loop.body for x in ast.walk(st)}
+    body_ids = {n.id for n in cfg.nodes if n.ast is not None and id(n.ast) in inside}
+    assigned: Dict[str, Set[int]] = {}
+    for n in cfg.nodes:
+        if n.id in body_ids and n.kind == "stmt" and isinstance(n.ast, (ast.Assign, ast.AnnAssign)) and getattr(n.ast, "value", None) is not None:
+            tgs = n.ast.targets if isinstance(n.ast, ast.Assign) else [n.ast.target]
+            for t in tgs:
+                for x in ast.walk(t):
+                    if isinstance(x, ast.Name) and isinstance(x.ctx, ast.Store):
+                        if any(isinstance(y, ast.Name) and y.id == x.id for y in ast.walk(n.ast.value)):
+                            continue  # an accumulator (`x = f(x)`) is meant to be carried
+                        assigned.setdefault(x.id, set()).add(n.id)
+    targets = {x.id for x in ast.walk(loop.target) if isinstance(x, ast.Name)}
+    starts = [m for m, lab in cfg.succ[h] if lab == "loop"]
+    out: Set[Tuple[str, int]] = set()
+    for name, defs in assigned.items():
+        if name in targets:
+            continue
+        reach: Set[int] = set()
+        for s in starts:
+            if s not in defs:
+                reach |= cfg.reachable_from_without(s, defs | {h}) | {s}
+        for n in cfg.nodes:
+            if n.id not in body_ids or n.ast is None or n.copy or n.id in defs or n.id not in reach:
+                continue
+            if n.kind == "stmt" and isinstance(n.ast, (ast.For, ast.While, ast.If, ast.Try, ast.With, ast.FunctionDef)):
+                continue
+            if any(isinstance(x, ast.Name) and x.id == name and isinstance(x.ctx, ast.Load) for x in ast.walk(n.ast)):
+                out.add((name, n.ast.lineno))
+    return sorted(out)
+
+
+def rule_no_state_between_entries(repo: Repo, rep: Report, rule: str = "R19.6") -> None:
+    """The fields of a model must not depend on the order in which the document lists the properties (or any other mapping entries).
+    A local that the body of an items-loop assigns only on some paths and reads afterwards carries the value of the *previous* entry into
+    the next one.  For every items-loop of the loader / schema parser: each read of a body-assigned local is preceded, in the same
+    iteration, by an assignment on every path (CFG reachability from the loop header avoiding the assignments)."""
+    n_loops = 0
+    loader_mods = [m for m in repo.modules if m.startswith(("pyopenapi_gen.core.loader", "pyopenapi_gen.core.parsing.schema_parser", "pyopenapi_gen.core.parsing.keywords"))]
+    live = set(repo.import_closure(["generator.client_generator"]))
+    for mn in sorted(loader_mods):
+        if mn not in live:
+            continue
+        mod = repo.modules[mn]
+        for fn in mod.functions.values():
+            for li, (loop, kvar, mtxt) in enumerate(_items_loops(fn)):
+                n_loops += 1
+                sub = f"{mod.relpath}:{fn.qualname} items-loop over `{mtxt[:40]}`"
+                lc = _loop_carried(fn, loop)
+                if lc:
+                    names = sorted({n for n, _ in lc})
+                    rep.violation(rule, sub, f"{fn.fq}|entry-state-leaks|{','.join(names)}",
+                                  f"{names} can be read (line {lc[0][1]}) with the value left by an earlier entry: it is assigned in the loop body only on some paths. "
+                                  "What is decided for one property (e.g. its nullability) then depends on which property the document lists before it, so two renderings "
+                                  "of one document that differ only in key order give different models", fn.loc(loop))
+                else:
+                    rep.ok(rule, sub, "every local the body assigns is assigned before it is read in each iteration", fn.loc(loop))
+    rep.count(f"{rule}:items_loops", n_loops)
+    rep.require(n_loops >= 6, f"{rule}: only {n_loops} items-loops found in the loader / schema parser (floor 6)")
